@@ -29,10 +29,11 @@ LBmp gen_lbmp(Tape& t) {
 	size_t entries = b.usedColors ? b.usedColors : maxc;
 	for (size_t i = 0; i < entries; ++i) b.palette.push_back({t.u8(), uint8_t(i * 7 + 1), uint8_t(255 - i), t.u8()});
 	b.pixels = t.expand(size_t(refgfx::pitch(uint64_t(b.width), b.depth) * absh(b.height)));
-	b.imageSize = t.below(3) == 0 ? t.u32() : 0; b.xRes = t.below(3) == 0 ? t.u32() : 2835; b.yRes = t.below(3) == 0 ? t.u32() : 0;
+	b.imageSize = t.below(3) == 0 ? t.u32() : 0; if (t.below(3) == 0) b.imageSize = uint32_t(b.pixels.size());   // the size most encoders state: exactly the pixel bytes b.xRes = t.below(3) == 0 ? t.u32() : 2835; b.yRes = t.below(3) == 0 ? t.u32() : 0;
 	b.importantColors = t.below(3) == 0 ? uint32_t(t.below(maxc + 1)) : 0;
 	b.shift = t.below(5) == 0 ? uint32_t(t.below(100)) : 0;
 	b.reserved1 = t.below(8) == 0 ? t.u16() : 0;
+	if (t.below(10) == 0) b.compression = t.pick<uint32_t>({1, 2, 3, 0x80000000u, 0xFFFFFFFFu});   // the reader does not look at this field: whatever it accepts must obey the laws
 	return b;
 }
 
@@ -145,6 +146,7 @@ void run_case(Tape& t, Stats& st) {
 	}
 	LBmp L = gen_lbmp(t);
 	if (st.want_sample()) st.sample("{\"file\":{\"depth\":" + std::to_string(L.depth) + ",\"width\":" + std::to_string(L.width) + ",\"height\":" + std::to_string(L.height) + ",\"used_colors\":" + std::to_string(L.usedColors) + ",\"shift\":" + std::to_string(L.shift) + "}}");
+	if (L.compression != 0) { candidate_case(L, st, "nonzero_compression_field"); return; }   // refusing such a file is as good as accepting it lawfully
 	file_case(L, st);
 }
 
@@ -159,6 +161,7 @@ void run_sweep(Stats& st) {
 			size_t entries = L.usedColors ? L.usedColors : maxc;
 			for (size_t i = 0; i < entries; ++i) L.palette.push_back({uint8_t(i), uint8_t(i * 2), uint8_t(i * 3), uint8_t(255 - i)});
 			L.pixels.resize(size_t(refgfx::pitch(uint64_t(width), depth) * absh(height))); for (size_t i = 0; i < L.pixels.size(); ++i) L.pixels[i] = uint8_t(0xA5 ^ (i * 13));
+			if (pm == 2) { L.imageSize = uint32_t(L.pixels.size()); L.xRes = 2835; L.yRes = 2835; }   // stated image size and resolution, as ordinary encoders write them
 			file_case(L, st);
 		}
 		for (unsigned mode = 0; mode < 3; ++mode) { Tape t(tp); factory_case(depth, uint32_t(width), height, mode, t, st); }
